@@ -227,6 +227,7 @@ def dump(repo: str) -> dict:
     out["set_routes"] = _set_routes(parameter, ecomax_parameters, mixer_parameters, thermostat_parameters, schedules, dev_ecomax)
     out["events_tables"] = _events_tables()
     out["pipeline"] = _pipeline()
+    out["frame_kinds"] = _frame_kinds(const, frames)
     return out
 
 
@@ -488,6 +489,7 @@ def emit_lean(d: dict) -> dict[str, str]:
     files["Requests.lean"] = body
     files["EventsTables.lean"] = emit_events_tables(d, hdr)
     files["Pipeline.lean"] = _emit_pipeline(d["pipeline"], hdr)
+    files["FrameKinds.lean"] = emit_frame_kinds(d, hdr)
     return files
 
 
@@ -1069,6 +1071,56 @@ def _emit_pipeline(p: dict, hdr: str) -> str:
              "    0 = it does not / 2 = it blocks for another reason) -/\n")
     body += "def handlerWaitsProduct : List (String × String × String × Nat) := " + lean_list(
         [f"({lean_str(c)}, {lean_str(e)}, {lean_str(m)}, {w})" for c, e, m, w in p["handler_waits_product"]], 2) + "\n\n"
+    body += "end PlumVerif.Gen\n"
+    return body
+
+
+def _frame_kinds(const, frames):
+    """C02: one row per FrameType member, by reflection: [name, code, module (request/response/message), class name,
+    `create_message` defined in the class's OWN __dict__ (not inherited from Request/Response), same for `decode_message`,
+    and whether the code translator (tools/py2lean.py TARGETS, read-only) extracts that function from the source text]"""
+    import importlib
+
+    try:
+        sys.path.insert(0, os.path.dirname(os.path.abspath(__file__)))
+        import py2lean
+        targets = {(rel, qual) for rel, qual in py2lean.TARGETS}
+    except Exception:  # noqa: BLE001  (the columns are then all false)
+        targets = set()
+    finally:
+        sys.path.pop(0)
+    rows = []
+    for m in const.FrameType:
+        module = m.name.split("_", 1)[0].lower()
+        mod_name, cls_name = frames.get_frame_handler(int(m.value)).rsplit(".", 1)
+        try:
+            cls = getattr(importlib.import_module("pyplumio." + mod_name), cls_name)
+        except Exception:  # noqa: BLE001
+            rows.append([m.name, int(m.value), module, "", False, False, False, False])
+            continue
+        rel = "pyplumio/" + mod_name.replace(".", "/") + ".py"
+        own = {fn: fn in vars(cls) for fn in ("create_message", "decode_message")}
+        rows.append([m.name, int(m.value), module, cls_name, own["create_message"], own["decode_message"],
+                     own["create_message"] and (rel, cls_name + ".create_message") in targets,
+                     own["decode_message"] and (rel, cls_name + ".decode_message") in targets])
+    return rows
+
+
+def emit_frame_kinds(d: dict, hdr: str) -> str:
+    def b(x):
+        return "true" if x else "false"
+
+    body = hdr + "namespace PlumVerif.Gen\n\n"
+    body += (
+        "/-- one frame kind (FrameType member) and its class, by reflection (tools/gen_tables.py `_frame_kinds`): `hasCreate` /\n"
+        "    `hasDecode` = the class defines `create_message` / `decode_message` ITSELF (not inherited from Request / Response);\n"
+        "    `createTranslated` / `decodeTranslated` = that function is a target of the code translator tools/py2lean.py -/\n"
+        "structure FrameKind where\n  name : String\n  code : Nat\n  module : String\n  cls : String\n  hasCreate : Bool\n"
+        "  hasDecode : Bool\n  createTranslated : Bool\n  decodeTranslated : Bool\nderiving Repr, DecidableEq, Inhabited\n\n"
+    )
+    body += "def frameKinds : List FrameKind := " + lean_list(
+        [f"⟨{lean_str(n)}, {c}, {lean_str(mo)}, {lean_str(cl)}, {b(hc)}, {b(hd)}, {b(tc)}, {b(td)}⟩"
+         for n, c, mo, cl, hc, hd, tc, td in d["frame_kinds"]], 1) + "\n\n"
     body += "end PlumVerif.Gen\n"
     return body
 
